@@ -299,6 +299,9 @@ pub fn e1_spec(id: &str, tier: &str) -> Option<Spec> {
             let kinds: Vec<Kind> = if c13 { vec![Kind::Fb] } else { vec![Kind::Fx, Kind::Fxj] };
             let mut programs = Vec::new();
             for k in kinds {
+                if !c13 {
+                    programs.extend(progs::lazy_input_cycles(k));
+                }
                 if quick {
                     programs.extend(progs::quick_cyc(k, if c13 { 140 } else { 280 }));
                 } else {
